@@ -142,8 +142,10 @@ class ExtCommunity(Attribute):
                 ext_community.append(
                     '%s:%s' % (bgp_cons.BGP_EXT_COM_STR_DICT[comm_code], struct.unpack('!I', value_tmp[2:])[0]))
             elif comm_code == bgp_cons.BGP_EXT_COM_COLOR:
-                ext_community.append('%s:%s' % (bgp_cons.BGP_EXT_COM_STR_DICT[comm_code],
-                                                struct.unpack('!I', value_tmp[2:])[0]))
+                # the two leftmost bits of the flags field (CO bits) select color-01, color-10 or color-11
+                co_bits = struct.unpack('!H', value_tmp[0:2])[0] & 0xc000
+                name = bgp_cons.BGP_EXT_COM_STR_DICT[comm_code * 65536 + co_bits if co_bits else comm_code]
+                ext_community.append('%s:%s' % (name, struct.unpack('!I', value_tmp[2:])[0]))
             # EVPN
             elif comm_code == bgp_cons.BGP_EXT_COM_EVPN_ES_IMPORT:
                 mac = str(netaddr.EUI(int(binascii.b2a_hex(value_tmp), 16)))
